@@ -269,12 +269,12 @@ func (cs *checkState) run() int {
 		// flavour, or mutex stalls in a check that has no auto flavour
 		hasAuto := false
 		for _, f := range fl {
-			if f.Flavour == "auto" {
+			if isAuto(f.Flavour) {
 				hasAuto = true
 			}
 		}
-		if spinStalls*20 > agg.evaluations || stallsBy["auto"] > 0 || (!hasAuto && agg.stalls*20 > agg.evaluations) {
-			troubles = append(troubles, fmt.Sprintf("%d runs stalled (%d not on a mutex, %d in the auto flavour): the remaining runs cannot decide the property", agg.stalls, spinStalls, stallsBy["auto"]))
+		if spinStalls*20 > agg.evaluations || stallsBy["auto"]+stallsBy["autorace"] > 0 || (!hasAuto && agg.stalls*20 > agg.evaluations) {
+			troubles = append(troubles, fmt.Sprintf("%d runs stalled (%d not on a mutex, %d in the auto flavour): the remaining runs cannot decide the property", agg.stalls, spinStalls, stallsBy["auto"]+stallsBy["autorace"]))
 		}
 	}
 	agg.violations = len(fresh)
